@@ -26,6 +26,7 @@ func init() {
 			ruleAppendDoesNotAlias(c, "R7", "mux.(*Group).New", "mux.NewGroup", "mux.NewRouter")
 			ruleOptionClosuresStore(c, "R8")
 			ruleRecoveryShorthands(c, "R9")
+			ruleRecoveryFieldOwnership(c, "R10")
 		},
 	})
 	register(&Spec{
@@ -42,6 +43,7 @@ func init() {
 			ruleTraceHeaderOwned(c, "R6")
 			ruleRecountFilter(c, "R7")
 			ruleGroupOptionOrder(c, "R8")
+			ruleHasTraceIsNonNil(c, "R9")
 		},
 	})
 }
